@@ -31,7 +31,7 @@ for t in TYS:
     U.add('lowestBitValue_' + t, [(c, 1)], [(c, 1)], 'o[0] = glm::lowestBitValue(a[0]);')
 for t in ('i32', 'u32', 'u8'):
     c = ITYPES[t]
-    for L in (2, 4):
+    for L in (1, 2, 3, 4):
         for f in P2:
             oc = 'bool' if f == 'isPowerOfTwo' else c
             U.add('%s_v%d_%s' % (f, L, t), [(c, L)], [(oc, L)], 'stv(o, glm::%s(ldv<%d,%s>(a)));' % (f, L, c))
@@ -298,8 +298,8 @@ def jobs(tier):
         J.append(('bitfield_' + t, job_bitfield(t)))
     for t in (['i32', 'u32', 'u16', 'u64'] if q else TYS):
         for f in MUL: J.append(('%s_%s' % (f, t), job_mult(t, f)))
-    for t in (('u32',) if q else ('i32', 'u32', 'u8')):
-        for L in ((4,) if q else (2, 4)):
+    for t in (('u32', 'u8') if q else ('i32', 'u32', 'u8')):
+        for L in (((4,) if t == 'u32' else (1, 2, 3)) if q else (1, 2, 3, 4)):      # every vector length: the per-length functors of _vectorize.hpp are hand-written
             J.append(('pow2_v%d_%s' % (L, t), job_pow2(t, L)))
             J.append(('findNSB_v%d_%s' % (L, t), job_findnsb(t, L)))
             J.append(('bitfield_v%d_%s' % (L, t), job_bitfield_vec(t, L)))
